@@ -380,6 +380,18 @@ def R5_collect_protocol_fees(run):
     ws = [w for w in writes.field_stores(facts) if w["fn"] is fn]
     ok = {w["field"] for w in ws} == {"protocol_fee_owed_a", "protocol_fee_owed_b"} and all(const_val(pv._rvalue(w["rv"], w["block"], w["stmt"], 0)) == 0 for w in ws)
     run.check("R5", "reset-fn", ok, "reset_protocol_fees_owed does not zero exactly protocol_fee_owed_a and _b", loc=fn.loc(), detail="owed_a := 0; owed_b := 0")
+    # ... and only a collection may zero them: the stores of 0 to protocol_fee_owed_a / _b are those of reset_protocol_fees_owed, and that is
+    # called from the two collection handlers only (a reset anywhere else erases a claim that was never paid)
+    allowed = {"instructions::collect_protocol_fees::handler", "instructions::v2::collect_protocol_fees::handler"}
+    bad = sorted({f.path for f, _ in facts.callers().get(W + "::reset_protocol_fees_owed", []) if f.path not in allowed and "::tests::" not in f.path and "_tests::" not in f.path})
+    for w in writes.field_stores(facts):
+        if w["field"] in ("protocol_fee_owed_a", "protocol_fee_owed_b") and w["fn"] is not fn and w["fn"].path not in allowed and "test" not in w["fn"].path \
+                and not w["fn"].path.endswith("Whirlpool::initialize"):   # a new pool starts with nothing owed
+            pw = prov_of(w["fn"])
+            if const_val(pw._rvalue(w["rv"], w["block"], w["stmt"], 0)) == 0 and w.get("root") != "local":
+                bad.append(w["fn"].path + " (stores 0)")
+    run.check("R5", "reset-only-on-collection", not bad, "the protocol's owed fees are zeroed outside a collection: %s" % ", ".join(bad), loc=fn.loc(),
+              detail="callers of reset_protocol_fees_owed: the two collect_protocol_fees handlers")
     for mod, sname, xfer in (("instructions::collect_protocol_fees", "CollectProtocolFees", "transfer_from_vault_to_owner"),
                              ("instructions::v2::collect_protocol_fees", "CollectProtocolFeesV2", "transfer_from_vault_to_owner_v2")):
         h = facts.need_fn(mod + "::handler")
